@@ -7,6 +7,14 @@ n = sys.argv[2] if len(sys.argv) > 2 else "a"
 props = {json.loads(l)['id']: json.loads(l) for l in open('/verif/properties.jsonl')}
 p = props[pid]
 wt = f"/tmp/mut-{pid}{n}"
+import glob, os
+taken = []
+for m in sorted(glob.glob(f"/verif/seeded/{pid}*/meta.json")):
+    try:
+        taken.append(json.load(open(m)).get("title", ""))
+    except Exception:
+        pass
+avoid = ("\nIdeas already taken by others for this property (pick a DIFFERENT mechanism, in a different function if you can): " + " | ".join(t for t in taken if t) + "\n") if taken else ""
 print(f"""You are a careful Rust engineer helping to evaluate a test suite by writing ONE realistic, subtle bug ("seeded change") into a copy of a repository.
 
 Repository: saveoursecrets/sdk (Rust SDK, server and CLI for a local-first encrypted secrets database: event-sourced vault files with commit trees, binary encoding, multi-device sync). You work ONLY in your own scratch git worktree. Create it first:
@@ -21,6 +29,7 @@ The property your change must BREAK (it holds on the current code):
     Code that is meant to make it hold: {'; '.join(m.get('name','')+' @ '+m.get('where','') for m in p['anchors']['mechanism'])}
     Relevant files: {', '.join(p['anchors']['files'])}
 
+{avoid}
 What to produce:
 1. A small source change (a few lines, in non-test code under crates/) that makes the property FALSE for some inputs/histories/schedules, while the code still compiles and the EXISTING test suite still passes. The existing tests are in tests/unit and tests/integration (run the relevant ones, e.g. `cargo nextest run --offline -p sos-unit-tests` (fast) and the related integration test modules with `cargo nextest run --offline -p sos-integration-tests -E 'test(/<module>/)'`; three tests are known to fail on the untouched tree and do not count: sos-command-line-tests::main::command_line, not_authenticated_local_account, not_authenticated_network_account). The change must NOT be something ordinary use exposes at once: it should need something specific to manifest — a particular interleaving, a crash or fault at a particular point, a multi-step sequence of operations, an unusual input (boundary size, repeated value, particular flag), or two cooperating sites that each look fine alone. It should look like a plausible mistake or "optimisation" a developer could make, not sabotage (no `if id == X`, no random behaviour, no new panics/unwraps as the bug itself, no feature flags or env vars). Do not use the cfg(sos_verif) hooks (lines guarded by `#[cfg(sos_verif)]` are compiled out in normal builds; leave them alone).
 2. A demonstration: a self-contained Rust test file (tokio test using the repo's public APIs; put it at tests/integration/tests/seeded_demo.rs and wire it with `mod seeded_demo;`-style inclusion in tests/integration/tests/main.rs, or as a unit test in tests/unit if it fits better) that FAILS with your change and PASSES without it. Show both runs.
